@@ -114,4 +114,4 @@ def cases(ctx):
             frame = frame[: rng.randint(0, len(frame))]
         steps = [s for s in P.random_read_script(rng, shapes[name]) if s != "W"]
         out.append(Case(P.pkt_line(frame, steps), ("random-reads", name)))
-    return P.with_fix(ctx, out)
+    return P.with_witnesses(ctx, out)
